@@ -82,7 +82,10 @@ class ProgGen:
     """Random structured programs. Termination by construction: while loops are driven by fresh counters
     incremented as the first body statement; for loops walk array literals / once-evaluated values."""
 
-    def __init__(self, rnd, maxdepth=5, nfuncs=None, p_while_continue=0.15, probes=True, vars_=('va', 'vb', 'vc', 'vd')):
+    def __init__(self, rnd, maxdepth=5, nfuncs=None, p_while_continue=0.15, probes=True, vars_=('va', 'vb', 'vc', 'vd'), typed=False):
+        # typed=True keeps booleans out of arithmetic (va, vb numeric; vc, vd boolean) so finding F14 cannot interfere
+        self.typed = typed
+        self.boolvars = {'vc', 'vd'} if typed else set()
         self.r = rnd
         self.maxdepth = maxdepth
         self.nloop = 0
@@ -112,7 +115,20 @@ class ProgGen:
             return B(r.choice(['&&', '||']), self.expr(scope, d + 1), self.expr(scope, d + 1))
         if x < 0.96:
             return U('!', self.expr(scope, d + 1))
+        if self.typed:
+            return V(r.choice(sorted(self.boolvars)))
         return B(r.choice(['+', '-', '*']), self.expr(scope, d + 1), self.expr(scope, d + 1))
+
+    def boolexpr(self, scope, d=0):
+        r = self.r
+        x = r.random()
+        if d > 2 or x < 0.6:
+            return B(r.choice(['<', '<=', '==', '!=', '>', '>=']), self.num(scope, d + 1), self.num(scope, d + 1))
+        if x < 0.8:
+            return B(r.choice(['&&', '||']), self.boolexpr(scope, d + 1), self.boolexpr(scope, d + 1))
+        if x < 0.9:
+            return U('!', self.expr(scope, d + 1))
+        return V(r.choice(sorted(self.boolvars)))
 
     def num(self, scope, d=0):
         r = self.r
@@ -120,12 +136,13 @@ class ProgGen:
         if d > 2 or x < 0.35:
             return N(r.randint(0, 4))
         if x < 0.65:
-            return V(r.choice(scope))
+            names = [n for n in scope if n not in self.boolvars] if self.typed else scope
+            return V(r.choice(names))
         if x < 0.85:
             return B(r.choice(['+', '-', '*', '+']), self.num(scope, d + 1), self.num(scope, d + 1))
         if x < 0.92 and self.funcs:
             f = r.choice(self.funcs)
-            return C(f[0], *[self.expr(scope, d + 1) for _ in range(r.randint(0, f[1] + 1))])
+            return C(f[0], *[(self.num if self.typed else self.expr)(scope, d + 1) for _ in range(r.randint(0, f[1] + 1))])
         if x < 0.96 and self.probes:
             self.tag += 1
             return C('hp', S(f'e{self.tag}'), self.num(scope, d + 1))
@@ -153,6 +170,9 @@ class ProgGen:
         r = self.r
         x = r.random()
         if depth >= self.maxdepth or x < 0.22:
+            if self.typed:
+                tgt = r.choice(self.vars)
+                return [['assign', tgt, self.boolexpr(scope) if tgt in self.boolvars else self.num(scope)]]
             return [['assign', r.choice(self.vars), self.num(scope) if r.random() < 0.7 else self.expr(scope)]]
         if x < 0.36:
             return [self.log(scope)]
@@ -180,10 +200,11 @@ class ProgGen:
             ix = f'ix{self.nloop}' if r.random() < 0.5 else None
             y = r.random()
             if y < 0.6:
-                vals = C('arrayNew', *[self.expr(scope, 2) for _ in range(r.randint(0, 3 if depth < 2 else 2))])
-            elif y < 0.8 and self.probes:
+                vals = C('arrayNew', *[(self.num if self.typed else self.expr)(scope, 2) for _ in range(r.randint(0, 3 if depth < 2 else 2))])
+            elif (y < 0.8 and self.probes) or self.typed:
                 self.tag += 1
-                vals = C('hp', S(f'v{self.tag}'), C('arrayNew', *[self.expr(scope, 2) for _ in range(r.randint(0, 3))]))
+                inner = C('arrayNew', *[self.num(scope, 2) for _ in range(r.randint(0, 3))])
+                vals = C('hp', S(f'v{self.tag}'), inner) if self.probes else inner
             else:
                 vals = V(r.choice(scope))
             sc = scope + [it] + ([ix] if ix else [])
@@ -200,7 +221,7 @@ class ProgGen:
                 return [['if', [[self.cond(scope), [[kind]]]], None]]
             return [[kind]]
         if x < 0.95:
-            rs = ['return', self.expr(scope) if r.random() < 0.7 else None]
+            rs = ['return', (self.num(scope) if self.typed else self.expr(scope)) if r.random() < 0.7 else None]
             self.features.add('return')
             if r.random() < 0.8:
                 return [['if', [[self.cond(scope), [rs]]], None]]
